@@ -70,6 +70,7 @@ func main() {
 		fmt.Fprintln(os.Stderr, "usage: fgsim check|worker|replay|minimize|probe|selfcheck|gen ...")
 		os.Exit(exitInfra)
 	}
+	props.ExplainMode = os.Getenv("FGSIM_EXPLAIN") != ""
 	switch os.Args[1] {
 	case "check":
 		os.Exit(cmdCheck(os.Args[2], os.Args[3]))
@@ -98,6 +99,10 @@ func main() {
 		}
 		o := safeExec(props.Registry[tr.Property], tr, false)
 		fmt.Printf("digest=%x violations=%d\n", o.Digest, len(o.Violations))
+		if props.ExplainMode {
+			b, _ := json.Marshal(o.Subs)
+			fmt.Printf("SUBS %s\n", b)
+		}
 	case "racepass":
 		os.Exit(cmdRacePass(os.Args[2:]))
 	case "list":
@@ -706,7 +711,11 @@ func cmdCheck(id, tier string) int {
 				tr.Oracle = id + ".level_diff"
 				tr.Note = strings.Join(lv, ",")
 				tr.Detail = strings.Join(parts, "; ")
-				a.viol = append(a.viol, levelViolation{level: levels[0], idx: i, v: props.Violation{Oracle: tr.Oracle, Detail: tr.Detail, Trace: tr, Features: map[string]string{}}})
+				feat := explainLevelDiff(self, vd, tr, levels)
+				if d := feat["explanation"]; d != "" {
+					tr.Detail += "; " + d
+				}
+				a.viol = append(a.viol, levelViolation{level: levels[0], idx: i, v: props.Violation{Oracle: tr.Oracle, Detail: tr.Detail, Trace: tr, Features: feat}})
 				a.violCount++
 			}
 		}
@@ -1355,4 +1364,83 @@ func replayFree(path string, tr *props.Trace) int {
 	}
 	fmt.Println("replay: not reproduced in 60 free-running repetitions")
 	return exitOK
+}
+
+// explainLevelDiff re-executes the trace at every level in explain mode and
+// derives the features of the difference (for the known-findings matcher and
+// for the report).
+func explainLevelDiff(self, vd string, tr *props.Trace, levels []int) map[string]string {
+	feat := map[string]string{}
+	tmp, err := os.CreateTemp("", "fgsim-explain-*.json")
+	if err != nil {
+		return feat
+	}
+	defer os.Remove(tmp.Name())
+	b, _ := json.Marshal(tr)
+	tmp.Write(b)
+	tmp.Close()
+	per := map[int][]props.SubResult{}
+	for _, l := range levels {
+		cmd := exec.Command(self, "digest", tmp.Name())
+		cmd.Env = append(os.Environ(), fmt.Sprintf("FASTGO_VERIF_ARCHLEVEL=%d", l), "FGSIM_EXPLAIN=1")
+		var buf bytes.Buffer
+		cmd.Stdout = &buf
+		if err := runWithTimeout(cmd, 10*time.Minute); err != nil {
+			feat["explanation"] = fmt.Sprintf("level %d: %v", l, err)
+			feat["crash"] = "true"
+			return feat
+		}
+		for _, line := range strings.Split(buf.String(), "\n") {
+			if strings.HasPrefix(line, "SUBS ") {
+				var subs []props.SubResult
+				json.Unmarshal([]byte(line[5:]), &subs)
+				per[l] = subs
+			}
+		}
+	}
+	base := per[levels[0]]
+	kindsEqual, bothPrefix, lenLE2, inputTrunc, ndiff := true, true, true, true, 0
+	example := ""
+	for _, l := range levels[1:] {
+		subs := per[l]
+		if len(subs) != len(base) {
+			kindsEqual = false
+			continue
+		}
+		for i := range subs {
+			x, y := base[i], subs[i]
+			if x.Digest == y.Digest {
+				continue
+			}
+			ndiff++
+			if x.Kind != y.Kind {
+				kindsEqual = false
+			}
+			if !x.RefPrefix || !y.RefPrefix {
+				bothPrefix = false
+			}
+			d := x.OutLen - y.OutLen
+			if d < 0 {
+				d = -d
+			}
+			if d > 2 {
+				lenLE2 = false
+			}
+			if !x.RefTrunc {
+				inputTrunc = false
+			}
+			if example == "" {
+				example = fmt.Sprintf("e.g. sub-run k=%d: level %d gives %d bytes then %s, level %d gives %d bytes then %s", x.K, levels[0], x.OutLen, x.Kind, l, y.OutLen, y.Kind)
+			}
+		}
+	}
+	if ndiff == 0 {
+		return feat
+	}
+	feat["kinds_equal"] = fmt.Sprint(kindsEqual)
+	feat["both_prefix_of_reference"] = fmt.Sprint(bothPrefix)
+	feat["length_diff_le_2"] = fmt.Sprint(lenLE2)
+	feat["input_truncated"] = fmt.Sprint(inputTrunc)
+	feat["explanation"] = fmt.Sprintf("%d differing sub-run(s); %s", ndiff, example)
+	return feat
 }
